@@ -107,7 +107,7 @@ func TopoOf(s string) modeling.Topology {
 
 // Scaled converts a real to lattice units; ok=false when it is not on the lattice.
 func Scaled(x float64) (int, bool) {
-	if math.IsNaN(x) || math.IsInf(x, 0) || math.Abs(x) > 1e6 {
+	if math.IsNaN(x) || math.IsInf(x, 0) || math.Abs(x) > 1<<20 { // 2^20 * Q = 2^30: the largest magnitude the 32-bit integers of TLC hold with headroom
 		return 0, false
 	}
 	r := math.Round(x * Q)
